@@ -38,6 +38,11 @@ def run(ctx, vlib):
     seen, nt = set(), 0
     diff_idx = [i for i in range(len(cases)) if oi[i] != om[i]]
     fresh = {}
+    # the F36 class of every case, decided by the extracted class predicate of T_C18_all_types_outside (has_unloaded)
+    cls = A.class_of(vlib, model, cases)
+    for c in cls:
+        key = "F36 class (has_unloaded): %s" % c
+        classes[key] = classes.get(key, 0) + 1
     if diff_idx:
         sub = diff_idx[:400]
         fo = vlib.run_driver(impl, [A.c18_fresh_line(cases[i]) for i in sub])
@@ -52,14 +57,19 @@ def run(ctx, vlib):
                 nt += 1
         if oi[i] != om[i] and i in fresh:
             verdict, why = A.judge_c18(line, oi[i], fresh[i])
-            rec = dict(driver="arch", case=line, implementation=oi[i], model=om[i], fresh_target=fresh[i], judge=verdict, why=why)
+            if cls[i] == "IN":
+                # inside the known class the model records what the code does today (stale elements kept): any other answer
+                # is a change of the known finding, whether or not the new answer satisfies the property
+                why = "inside the F36 class (has_unloaded) the implementation no longer answers as recorded; the property predicate says %s: %s" % (verdict, why)
+                verdict = "KNOWN-FINDING-CHANGED"
+            rec = dict(driver="arch", case=line, implementation=oi[i], model=om[i], fresh_target=fresh[i], judge=verdict, why=why, defect_class=cls[i])
             if verdict == "FAIL" and len(failing) < 20:
                 failing.append(rec)
             elif len(diffs) < 20:
                 diffs.append(rec)
     # MsgPack, JSON and XML through std::istream must give exactly what the memory load gives
     n_stream = A.stream_vs_memory(vlib, impl, cases, oi, om, failing)
-    known_lines, known_cases = A.known_findings("C18", vlib, impl)
+    known_lines, known_cases = A.known_findings("C18", vlib, impl, model)
     diffs += A.STALE_KNOWN
     failing = [f for f in failing if f["case"] not in known_cases]
     samples = [dict(case=cases[i], implementation=oi[i], model=om[i]) for i in range(0, min(len(cases), 4))]
